@@ -5,12 +5,10 @@ import GwfProps.Lemmas.TouchLemmas
 import GwfProps.Lemmas.TouchOrder
 import GwfProps.C01
 import GwfProps.C18
+import GwfProps.Lemmas.WorldGraph
 namespace Gwf.C16
 open Gwf
 
-/-- the declared (normalised) outputs of target id `t` -/
-def outsF (dir : String) (wf : List WT) (t : Nat) : List String := ((wtOf wf t).map (·.outsAbs dir)).getD []
-def insF (dir : String) (wf : List WT) (t : Nat) : List String := ((wtOf wf t).map (·.insAbs dir)).getD []
 
 theorem touchOne_fields (w : World) (wf : List WT) (t : Nat) :
     (w.touchOne wf t).dir = w.dir ∧ (w.touchOne wf t).clock = w.clock + 1 ∧
@@ -76,6 +74,110 @@ theorem touch_makes_uptodate (w : World) (wf : List WT) (order : List Nat)
     rw [hm] at hti; rw [ho o ho'] at hto
     simp only [Option.some.injEq] at hti hto
     omega
+
+/-- **end to end** (no hypothesis about the graph left): on a workflow that validation accepts, with no
+    file dated after "now", `gwf touch` leaves EVERY touched target that declares outputs up to date —
+    all outputs present, no input newer than any output.  Composition of validation (C04: one producer
+    per file, sources exist, a rank), the dependency relation (C03.deps_iff), the post-order of the
+    visit (touch_postorder) and the stamping lemma (touch_makes_uptodate). -/
+theorem touch_completes (w : World) (wf : List WT) (g : Graph String)
+    (hg : (w.proj wf none).graph = .ok g)
+    (hid : ∀ a ∈ wf, ∀ b ∈ wf, a.id = b.id → a = b)
+    (hnow : ∀ p m, alook p w.files = some m → m ≤ w.clock)
+    (eps : List Nat) (a : WT) (ha : a ∈ wf)
+    (ht : a.id ∈ eps.foldl (fun acc e => touchVisit g.depsOf (g.ids.length + 1) acc e) [])
+    (hout : a.outsAbs w.dir ≠ []) :
+    let order := eps.foldl (fun acc e => touchVisit g.depsOf (g.ids.length + 1) acc e) []
+    let w' := order.foldl (fun w t => w.touchOne wf t) w
+    shouldRun (fun p => alook p w'.files) false (a.insAbs w.dir) (a.outsAbs w.dir) = some false := by
+  intro order w'
+  have hg' := world_graph w wf none g hg
+  have hidT := wfTgts_ids w.dir wf hid
+  obtain ⟨rank, hr, hf⟩ := C04.graph_rank (wfTgts w.dir wf) _ hidT g hg'
+  obtain ⟨hpo, hnodup, _⟩ := touch_postorder g.depsOf rank hr (g.ids.length + 1) hf eps
+  obtain ⟨hdisj, hpost⟩ := stamp_hyps w wf g hg hid hnow order
+    (fun p t r hsplit d hd => Or.inl (hpo p t r hsplit d hd))
+  have hout' : outsF w.dir wf a.id ≠ [] := by rw [(outsF_of w.dir wf hid a ha).1]; exact hout
+  have := touch_makes_uptodate w wf order hnodup hdisj hpost a.id ht hout'
+  rw [(outsF_of w.dir wf hid a ha).1, (outsF_of w.dir wf hid a ha).2] at this
+  exact this
+
+theorem touchOne_specChanged_self (w : World) (wf : List WT) (a : WT) (hw : wtOf wf a.id = some a) :
+    (w.touchOne wf a.id).specChanged a = false := by
+  have hh : (w.touchOne wf a.id).hashing = w.hashing := (touchOne_fields w wf a.id).2.2.2.2.1
+  simp only [World.specChanged, hh, C18.touchOne_records w wf a.id a hw a.name]
+  cases w.hashing <;> simp
+
+theorem touchOne_specChanged_other (w : World) (wf : List WT) (a : WT) (t : Nat)
+    (hother : ∀ b, wtOf wf t = some b → b.name ≠ a.name) :
+    (w.touchOne wf t).specChanged a = w.specChanged a := by
+  have hh : (w.touchOne wf t).hashing = w.hashing := (touchOne_fields w wf t).2.2.2.2.1
+  cases hw : wtOf wf t with
+  | none => simp [World.specChanged, World.touchOne, hw]
+  | some b =>
+    have hne : a.name ≠ b.name := fun e => hother b hw e.symm
+    simp only [World.specChanged, hh, C18.touchOne_records w wf t b hw a.name, hne, and_false, if_false]
+
+/-- after touching the targets of `order`, a touched target is never "spec changed": with hashing on
+    its record is its current spec, with hashing off nothing is; an untouched target keeps its verdict -/
+theorem touched_spec_current (wf : List WT)
+    (hid : ∀ a ∈ wf, ∀ b ∈ wf, a.id = b.id → a = b)
+    (hname : ∀ a ∈ wf, ∀ b ∈ wf, a.name = b.name → a = b) (a : WT) (ha : a ∈ wf) :
+    ∀ (order : List Nat) (w : World), (a.id ∈ order ∨ w.specChanged a = false) →
+      (order.foldl (fun w t => w.touchOne wf t) w).specChanged a = false
+  | [], w, h => by
+    rcases h with h | h
+    · simp at h
+    · simpa using h
+  | t :: rest, w, h => by
+    simp only [List.foldl_cons]
+    apply touched_spec_current wf hid hname a ha rest (w.touchOne wf t)
+    by_cases hta : t = a.id
+    · right
+      subst hta
+      exact touchOne_specChanged_self w wf a (wtOf_mem wf hid a ha)
+    · rcases h with h | h
+      · left
+        simp only [List.mem_cons] at h
+        rcases h with h | h
+        · exact absurd h.symm hta
+        · exact h
+      · right
+        rw [touchOne_specChanged_other w wf a t]
+        · exact h
+        · intro b hb e
+          obtain ⟨hbm, hbid⟩ := wtOf_some_mem hb
+          have := hname b hbm a ha e
+          subst this
+          exact hta hbid.symm
+
+/-- **what `gwf status` then computes** (with `decideT`: completed unless the backend holds a live,
+    failed or cancelled job, or a dependency is not complete): after `gwf touch` every touched target
+    that declares outputs is NOT stale in the workflow the scheduling pass works on -/
+theorem touch_not_stale (w : World) (wf : List WT) (g : Graph String)
+    (hg : (w.proj wf none).graph = .ok g)
+    (hid : ∀ a ∈ wf, ∀ b ∈ wf, a.id = b.id → a = b)
+    (hname : ∀ a ∈ wf, ∀ b ∈ wf, a.name = b.name → a = b)
+    (hnow : ∀ p m, alook p w.files = some m → m ≤ w.clock)
+    (eps : List Nat) (a : WT) (ha : a ∈ wf)
+    (ht : a.id ∈ eps.foldl (fun acc e => touchVisit g.depsOf (g.ids.length + 1) acc e) [])
+    (hout : a.outsAbs w.dir ≠ []) (g' : Graph String) :
+    let order := eps.foldl (fun acc e => touchVisit g.depsOf (g.ids.length + 1) acc e) []
+    let w' := order.foldl (fun w t => w.touchOne wf t) w
+    ((w'.proj wf none).wf g').stale a.id = false := by
+  intro order w'
+  have hdir : w'.dir = w.dir := by
+    have : ∀ (l : List Nat) (w0 : World), (l.foldl (fun w t => w.touchOne wf t) w0).dir = w0.dir := by
+      intro l
+      induction l with
+      | nil => intro _; rfl
+      | cons t rest ih => intro w0; simp only [List.foldl_cons]; rw [ih, (touchOne_fields w0 wf t).1]
+    exact this order w
+  have hup := touch_completes w wf g hg hid hnow eps a ha ht hout
+  have hspec := touched_spec_current wf hid hname a ha order w (Or.inl ht)
+  apply not_stale_of_uptodate w' wf g' none hid a ha hspec
+  rw [hdir]
+  exact hup
 
 /-- touch changes only the time stamps of declared outputs of the touched targets: every other file
     keeps its stamp (contents are not part of the state touch can write), and tracked jobs and the
